@@ -257,7 +257,9 @@ fn shutdown_case(cfg: &Cfg, pos: Pos, ncallers: usize, order: &[Tok], case: &str
                     }
                 }).expect("spawn"));
                 if handle.is_some() {
-                    let _ = c.wait_arrival(5000, |w| w.label == label && w.point == "s.flag_set");
+                    // held at the flag, or already back (a request that returns without reaching it)
+                    let th = threads[*i].as_ref().expect("thread");
+                    sys::wait_until(5000, || th.is_finished() || c.waiting().iter().any(|w| w.label == label && w.point == "s.flag_set"));
                 }
                 trace.push(format!("start-shutdown{i}"));
             }
@@ -382,6 +384,193 @@ fn shutdown_case(cfg: &Cfg, pos: Pos, ncallers: usize, order: &[Tok], case: &str
     report::sample(&format!("{pos:?}{ncallers}"), jo! {"position" => format!("{pos:?}"), "shutdown_callers" => ncallers, "schedule" => trace, "wait" => "Ok", "peer_saw_eof" => peer_open, "reconnected" => true});
     drop(p2);
     let _ = s.daemon.wait();
+}
+
+/// A shutdown request that has *returned* is enough: a following wait() must return even while
+/// another thread's request is still in progress (stalled between setting the flag and shutting
+/// the connection down).
+fn early_wait_case(cfg: &Cfg) {
+    let c = ctl::global();
+    c.reset();
+    let bc = BCfg { num_queues: 1, masks: vec![1], ..BCfg::default() };
+    let mut s: Sess<V> = Sess::new(bc);
+    let peer = s.connect_stream();
+    if !raw_negotiate(&peer) {
+        report::inconclusive("negotiation");
+        return;
+    }
+    let dtid = daemon_tid(&s);
+    sys::wait_until(5000, || dtid > 0 && sys::parked_in(dtid, &[sys::SYS_RECVMSG]));
+    c.set_filter(|l, p, _| l.starts_with("shut") && p == "s.flag_set");
+    c.arm();
+    let handle = s.daemon.shutdown_handle();
+    let mut ths = Vec::new();
+    for i in 0..2 {
+        let h2 = handle.clone();
+        let label = format!("shut{i}");
+        let l2 = label.clone();
+        let th = std::thread::Builder::new().name(label.clone()).spawn(move || {
+            ctl::label(&l2);
+            if let Some(h) = h2 {
+                h.shutdown();
+            }
+        }).expect("spawn");
+        sys::wait_until(5000, || th.is_finished() || c.waiting().iter().any(|w| w.label == label));
+        ths.push(th);
+    }
+    // let the second request run to completion; the first stays stalled
+    if let Some(w) = c.waiting().iter().find(|w| w.label == "shut1") {
+        c.grant(w.ticket);
+    }
+    let second_returned = sys::wait_until(5000, || ths[1].is_finished());
+    let first_stalled = c.waiting().iter().any(|w| w.label == "shut0");
+    let done = Arc::new(AtomicBool::new(false));
+    let wtid = Arc::new(AtomicI32::new(0));
+    let mut certificate = None;
+    let mut wait_result: Option<Result<(), String>> = None;
+    std::thread::scope(|sc| {
+        let (d2, t2) = (done.clone(), wtid.clone());
+        let daemon: &mut VhostUserDaemon<dmn::RB<V>> = &mut s.daemon;
+        let h = sc.spawn(move || {
+            t2.store(sys::gettid(), Ordering::SeqCst);
+            let r = daemon.wait().map_err(|e| format!("{e:?}"));
+            d2.store(true, Ordering::SeqCst);
+            r
+        });
+        let mut streak = 0;
+        sys::wait_until(20_000, || {
+            if done.load(Ordering::SeqCst) {
+                return true;
+            }
+            let wt = wtid.load(Ordering::SeqCst);
+            if wt > 0 && sys::parked_in(wt, &[sys::SYS_FUTEX]) && sys::parked_in(dtid, &[sys::SYS_RECVMSG]) {
+                streak += 1;
+            } else {
+                streak = 0;
+            }
+            if streak >= 10 {
+                certificate = Some(format!("wait() parked joining the daemon thread; daemon thread {dtid} parked in recvmsg; the only thing that could wake it is the stalled first request"));
+                return true;
+            }
+            false
+        });
+        // release the stalled request so that everything can end
+        c.free_run();
+        wait_result = h.join().ok();
+    });
+    for t in ths {
+        let _ = t.join();
+    }
+    c.reset();
+    report::eval(1);
+    report::count("shutdown.early_wait", 1);
+    report::distinct_str(&format!("earlywait:{second_returned}:{first_stalled}"));
+    let detail = jo! {"second_request_returned" => second_returned, "first_request_stalled_after_setting_the_flag" => first_stalled, "wait" => format!("{wait_result:?}"), "certificate" => certificate.clone()};
+    if !second_returned {
+        report::inconclusive("early-wait: the second shutdown request did not return");
+    } else if certificate.is_some() {
+        report::violation("C16:shutdown:early-wait:wait-never-returns", detail, cfg.replay("earlywait"));
+    } else if !matches!(wait_result, Some(Ok(()))) {
+        report::violation("C16:shutdown:early-wait:wait-returns-error", detail, cfg.replay("earlywait"));
+    } else {
+        report::sample("early-wait", detail);
+    }
+    drop(peer);
+}
+
+/// The same guarantees when the daemon is the connecting side (start_client): shutdown, wait,
+/// end-of-stream at the peer, and a new connection afterwards.
+fn client_mode_case(cfg: &Cfg) {
+    for variant in 0..2 {
+        let bc = BCfg { num_queues: 1, masks: vec![1], ..BCfg::default() };
+        let be: dmn::RB<V> = dmn::RB::new(bc);
+        let mem: dmn::Mem = vm_memory::GuestMemoryAtomic::new(vm_memory::GuestMemoryMmap::new());
+        let threads_before: Vec<i32> = sys::threads().iter().map(|t| t.0).collect();
+        let mut daemon = VhostUserDaemon::new(DAEMON.to_string(), be.clone(), mem).expect("daemon");
+        let path = dmn::sock_path();
+        let _ = std::fs::remove_file(&path);
+        let listener = std::os::unix::net::UnixListener::bind(&path).expect("bind");
+        if let Err(e) = daemon.start_client(&path) {
+            report::inconclusive(&format!("start_client: {e:?}"));
+            return;
+        }
+        let (peer, _) = listener.accept().expect("accept");
+        if !raw_negotiate(&peer) {
+            report::inconclusive("negotiation (client mode)");
+            return;
+        }
+        let dtid = sys::threads().iter().filter(|t| t.1 == DAEMON && !threads_before.contains(&t.0)).map(|t| t.0).next().unwrap_or(0);
+        sys::wait_until(5000, || dtid > 0 && sys::parked_in(dtid, &[sys::SYS_RECVMSG]));
+        // variant 0: shutdown handle, variant 1: request_shutdown()
+        let had_handle = daemon.shutdown_handle().is_some();
+        if variant == 0 {
+            if let Some(h) = daemon.shutdown_handle() {
+                h.shutdown();
+            }
+        } else {
+            daemon.request_shutdown();
+        }
+        let done = Arc::new(AtomicBool::new(false));
+        let wtid = Arc::new(AtomicI32::new(0));
+        let mut certificate = None;
+        let mut wait_result: Option<Result<(), String>> = None;
+        std::thread::scope(|sc| {
+            let (d2, t2) = (done.clone(), wtid.clone());
+            let dref = &mut daemon;
+            let h = sc.spawn(move || {
+                t2.store(sys::gettid(), Ordering::SeqCst);
+                let r = dref.wait().map_err(|e| format!("{e:?}"));
+                d2.store(true, Ordering::SeqCst);
+                r
+            });
+            let mut streak = 0;
+            sys::wait_until(20_000, || {
+                if done.load(Ordering::SeqCst) {
+                    return true;
+                }
+                let wt = wtid.load(Ordering::SeqCst);
+                if wt > 0 && sys::parked_in(wt, &[sys::SYS_FUTEX]) && sys::parked_in(dtid, &[sys::SYS_RECVMSG]) {
+                    streak += 1;
+                } else {
+                    streak = 0;
+                }
+                if streak >= 10 {
+                    certificate = Some(format!("shutdown was requested and returned; wait() parked joining the daemon thread; daemon thread {dtid} still parked in recvmsg on the open connection"));
+                    // close our end so that the scope can end
+                    unsafe { libc::shutdown(peer.as_raw_fd(), libc::SHUT_RDWR) };
+                    return true;
+                }
+                false
+            });
+            wait_result = h.join().ok();
+        });
+        let mut buf = [0u8; 16];
+        let eof = certificate.is_none() && sys::wait_until(5000, || matches!(sys::recv_fds(peer.as_raw_fd(), &mut buf, libc::MSG_DONTWAIT), Ok(r) if r.n == 0));
+        report::eval(1);
+        report::count("shutdown.client_mode", 1);
+        report::distinct_str(&format!("client:{variant}"));
+        let detail = jo! {"requested_through" => if variant == 0 { "shutdown_handle()" } else { "request_shutdown()" }, "shutdown_handle_available" => had_handle, "wait" => format!("{wait_result:?}"), "peer_saw_eof" => eof, "certificate" => certificate.clone()};
+        if certificate.is_some() {
+            report::violation("C16:shutdown:client-mode:wait-never-returns", detail, cfg.replay("client"));
+        } else if !matches!(wait_result, Some(Ok(()))) {
+            report::violation("C16:shutdown:client-mode:wait-returns-error", detail, cfg.replay("client"));
+        } else if !eof {
+            report::violation("C16:shutdown:client-mode:peer-sees-no-end-of-stream", detail, cfg.replay("client"));
+        } else {
+            // a new connection can be made
+            let r2 = daemon.start_client(&path);
+            let again = r2.is_ok() && listener.accept().is_ok();
+            if !again {
+                report::violation("C16:shutdown:client-mode:new-connection-not-made", jo! {"start_client" => format!("{r2:?}")}, cfg.replay("client"));
+            } else {
+                report::sample("client-mode", detail);
+            }
+        }
+        drop(peer);
+        drop(listener);
+        let _ = std::fs::remove_file(&path);
+        // (the daemon is dropped here: exit events end the workers)
+    }
 }
 
 fn s_shutdown_again(h: &Option<vhost_user_backend::ShutdownHandle>) -> Option<vhost_user_backend::ShutdownHandle> {
@@ -611,6 +800,12 @@ pub fn run(cfg: &Cfg) {
     }
     if part.is_empty() || part == "serve" {
         serve_and_drop(cfg);
+    }
+    if (part.is_empty() && cfg.shard == 1 % cfg.nshards.max(1)) || part == "client" {
+        client_mode_case(cfg);
+    }
+    if (part.is_empty() && cfg.shard == 0) || part == "earlywait" {
+        early_wait_case(cfg);
     }
     vhost::verif::set_hook(None);
     report::set_exhaustive(true);
